@@ -250,6 +250,15 @@ func regImmShift(f binaryExprFunc, i instruction, bits uint8, w expr.Width) expr
 	return f(regLoad(rs1, i, w), immShift, w)
 }
 
+// signedRem is the RISC-V signed reminder: the result has sign of the dividend
+// (e1), reminder of division by zero is the dividend and reminder of the
+// overflowing division is zero. All of that follows from r = e1 - (e1/e2)*e2
+// for the truncating signed division.
+func signedRem(e1, e2 expr.Expr, w expr.Width) expr.Expr {
+	div := exprtools.SignedDiv(e1, e2, w)
+	return exprtools.Sub(e1, expr.NewBinary(expr.Mul, div, e2, w), w)
+}
+
 func sext(e expr.Expr, signBit uint8, w expr.Width) expr.Expr {
 	return exprtools.SignExtend(e, expr.ConstFromUint(signBit), w)
 }
